@@ -15,8 +15,8 @@ package ledger
 //   kv  : create-app with global=local schema (ints,bytes) in {0,1,2}^2;
 //         app_global_put uint / bytes and app_global_del for keys {k1,k2,k3};
 //         app_local_put uint / bytes and app_local_del for keys {k1,k2,k3} by the two
-//         accounts A, B on their own local state; opt-in / close-out / clear-state of A, B;
-//         delete-app; END-BLOCK.
+//         accounts A, B on their own local state (quick tier: B only puts k1); opt-in /
+//         close-out / clear-state of A, B; delete-app; END-BLOCK.
 // Packaging modes (separate explorations)
 //   "groups": every operation is its own group in the block under construction; the
 //         END-BLOCK operation (at most once per trace) generates the block, validates it
@@ -60,8 +60,10 @@ import (
 	"runtime/debug"
 	"sort"
 	"strings"
+	"sync"
 	"sync/atomic"
 	"testing"
+	"time"
 
 	"github.com/algorand/avm-abi/apps"
 	"github.com/algorand/go-deadlock"
@@ -123,6 +125,13 @@ type c23slot uint8 // 0 absent, 1 uint (value 7), 2 bytes (value "v")
 type c23box struct {
 	On  bool
 	Val string
+}
+
+func (b c23box) String() string {
+	if !b.On {
+		return "-"
+	}
+	return fmt.Sprintf("%q", b.Val)
 }
 
 type c23ref struct {
@@ -214,7 +223,9 @@ func c23boxAlphabet() []c23op {
 	return ops
 }
 
-func c23kvAlphabet() []c23op {
+// c23kvAlphabet: full=false (quick tier) gives account B only two put operations (A and B
+// are symmetric; B still opts in/out and interleaves with A).
+func c23kvAlphabet(full bool) []c23op {
 	var ops []c23op
 	for n := 0; n <= 2; n++ {
 		for m := 0; m <= 2; m++ {
@@ -229,6 +240,12 @@ func c23kvAlphabet() []c23op {
 	}
 	for x := 0; x < 2; x++ {
 		for k := 0; k < 3; k++ {
+			if x == 1 && !full {
+				if k == 0 {
+					ops = append(ops, c23op{kind: c23kLPut, x: x, k: k, t: 1}, c23op{kind: c23kLPut, x: x, k: k, t: 2})
+				}
+				continue
+			}
 			ops = append(ops, c23op{kind: c23kLPut, x: x, k: k, t: 1}, c23op{kind: c23kLPut, x: x, k: k, t: 2}, c23op{kind: c23kLDel, x: x, k: k})
 		}
 	}
@@ -387,23 +404,27 @@ type c23explore struct {
 	e        *c23env
 	ops      []c23op
 	onegroup bool
+	cuts     *c23cutCache
 }
 
 type c23sys struct {
-	x     *c23explore
-	e     *c23env
-	l     *Ledger // shared env ledger, or the private copy after END-BLOCK
-	own   *Ledger
-	ev    *eval.BlockEvaluator
-	ref   c23ref
-	cut   *c23ref // reference state at the block boundary (nil: no END-BLOCK yet)
-	app   basics.AppIndex
-	step  int
-	group []c23op // onegroup mode: the accepted operations so far
-	obs   string
+	x        *c23explore
+	e        *c23env
+	l        *Ledger // shared env ledger, or the shared read-only ledger behind the END-BLOCK
+	cutRef   *c23cut
+	accepted []int // indices of the accepted operations so far (identifies the block content)
+	ev       *eval.BlockEvaluator
+	ref      c23ref
+	cut      *c23ref // reference state at the block boundary (nil: no END-BLOCK yet)
+	app      basics.AppIndex
+	group    []c23op // onegroup mode: the accepted operations so far
+	obs      string
 }
 
-func c23openLedger(dir, name string, cv protocol.ConsensusVersion, gb bookkeeping.GenesisBalances) (*Ledger, error) {
+// c23openLedger opens an in-memory ledger. lean=true (private per-trace copies) switches
+// off the large preallocated LRU / verified-transaction caches (supported configuration,
+// cf. upstream WithAndWithoutLRUCache), which otherwise cost ~1 s per ledger.
+func c23openLedger(dir, name string, cv protocol.ConsensusVersion, gb bookkeeping.GenesisBalances, lean bool) (*Ledger, error) {
 	var genHash crypto.Digest
 	copy(genHash[:], "verif-c23-genesis-hash")
 	genBlock, err := bookkeeping.MakeGenesisBlock(cv, gb, "verif", genHash)
@@ -412,6 +433,11 @@ func c23openLedger(dir, name string, cv protocol.ConsensusVersion, gb bookkeepin
 	}
 	cfg := config.GetDefaultLocal()
 	cfg.Archival = true
+	if lean {
+		cfg.DisableLedgerLRUCache = true
+		cfg.TxPoolSize = 64
+		cfg.VerifiedTranscationsCacheSize = 64
+	}
 	log := logging.NewLogger()
 	log.SetLevel(logging.Error)
 	return OpenLedger(log, filepath.Join(dir, name), true, ledgercore.InitState{
@@ -437,9 +463,9 @@ func (x *c23explore) newSys() *c23sys {
 }
 
 func (s *c23sys) close() {
-	if s.own != nil {
-		s.own.Close()
-		s.own = nil
+	if s.cutRef != nil {
+		s.x.cuts.release(s.cutRef)
+		s.cutRef = nil
 	}
 }
 
@@ -547,34 +573,126 @@ func (s *c23sys) groupTxns(ops []c23op) []transactions.SignedTxn {
 	return txntest.Group(txs...)
 }
 
-func (s *c23sys) endBlock() error {
-	e := s.e
-	ub, err := s.ev.GenerateBlock(nil)
+// c23cut is the ledger reached by ending the block after a given sequence of accepted
+// operations. It is never modified afterwards (one END-BLOCK per trace), so all traces
+// sharing that prefix share it read-only; the cache keeps a bounded number open.
+type c23cut struct {
+	once sync.Once
+	l    *Ledger
+	err  error
+	refs int
+	use  uint64
+}
+
+type c23cutCache struct {
+	mu   sync.Mutex
+	m    map[string]*c23cut
+	tick uint64
+	max  int
+	made int
+}
+
+func (c *c23cutCache) acquire(key string) *c23cut {
+	c.mu.Lock()
+	defer c.mu.Unlock()
+	e := c.m[key]
+	if e == nil {
+		e = &c23cut{}
+		c.m[key] = e
+		c.made++
+	}
+	e.refs++
+	c.tick++
+	e.use = c.tick
+	return e
+}
+
+func (c *c23cutCache) release(e *c23cut) {
+	var victims []*c23cut
+	c.mu.Lock()
+	e.refs--
+	if len(c.m) > c.max {
+		type kv struct {
+			k string
+			e *c23cut
+		}
+		var idle []kv
+		for k, v := range c.m {
+			if v.refs == 0 {
+				idle = append(idle, kv{k, v})
+			}
+		}
+		sort.Slice(idle, func(i, j int) bool { return idle[i].e.use < idle[j].e.use })
+		for _, x := range idle {
+			if len(c.m) <= c.max*3/4 {
+				break
+			}
+			delete(c.m, x.k)
+			victims = append(victims, x.e)
+		}
+	}
+	c.mu.Unlock()
+	for _, v := range victims {
+		if v.l != nil {
+			v.l.Close()
+		}
+	}
+}
+
+func (c *c23cutCache) closeAll() {
+	c.mu.Lock()
+	defer c.mu.Unlock()
+	for k, v := range c.m {
+		if v.l != nil {
+			v.l.Close()
+		}
+		delete(c.m, k)
+	}
+}
+
+// makeCut builds the ledger for "the block under construction in ev is ended now".
+func (e *c23env) makeCut(ev *eval.BlockEvaluator) (*Ledger, error) {
+	ub, err := ev.GenerateBlock(nil)
 	if err != nil {
-		return fmt.Errorf("GenerateBlock: %w", err)
+		return nil, fmt.Errorf("GenerateBlock: %w", err)
 	}
 	// private copy of the environment's ledger: same genesis, same committed blocks
-	pl, err := c23openLedger(e.dir, fmt.Sprintf("%s-p%d", e.name, e.serial.Add(1)), e.cv, e.gb)
+	pl, err := c23openLedger(e.dir, fmt.Sprintf("%s-p%d", e.name, e.serial.Add(1)), e.cv, e.gb, true)
 	if err != nil {
-		return fmt.Errorf("harness: open private ledger: %w", err)
+		return nil, fmt.Errorf("harness: open private ledger: %w", err)
 	}
-	s.own, s.l = pl, pl
 	for _, b := range e.blocks {
 		if err := pl.AddBlock(b, agreement.Certificate{}); err != nil {
-			return fmt.Errorf("harness: replay setup block %d: %w", b.Round(), err)
+			pl.Close()
+			return nil, fmt.Errorf("harness: replay setup block %d: %w", b.Round(), err)
 		}
 	}
 	prp := ub.UnfinishedBlock().BlockHeader.FeeSink
 	blk := ub.FinishBlock(committee.Seed(prp), prp, true)
 	vb, err := validateWithoutSignatures(e.t, pl, blk)
 	if err != nil {
-		return fmt.Errorf("Validate of the generated block: %w", err)
+		pl.Close()
+		return nil, fmt.Errorf("Validate of the generated block: %w", err)
 	}
 	if err := pl.AddValidatedBlock(*vb, agreement.Certificate{}); err != nil {
-		return fmt.Errorf("AddValidatedBlock: %w", err)
+		pl.Close()
+		return nil, fmt.Errorf("AddValidatedBlock: %w", err)
 	}
 	pl.WaitForCommit(pl.Latest())
-	s.ev, err = c23startEval(pl)
+	return pl, nil
+}
+
+func (s *c23sys) endBlock() error {
+	key := fmt.Sprint(s.accepted)
+	c := s.x.cuts.acquire(key)
+	s.cutRef = c
+	c.once.Do(func() { c.l, c.err = s.e.makeCut(s.ev) })
+	if c.err != nil {
+		return c.err
+	}
+	s.l = c.l
+	var err error
+	s.ev, err = c23startEval(c.l)
 	return err
 }
 
@@ -617,8 +735,7 @@ func (s *c23sys) apply(opi int) (bool, error) {
 		if app == 0 && o.kind != c23kCreate {
 			app = c23bogusApp // nothing was created yet: address an id that never exists
 		}
-		tx := s.build(o, app, fmt.Sprintf("c23 step %d", s.step))
-		s.step++
+		tx := s.build(o, app, fmt.Sprintf("c23 txn %d", len(s.accepted))) // identical accepted txns must differ
 		err = c23submit(s.ev, []transactions.SignedTxn{tx.SignedTxn()})
 	}
 	var pe ledgercore.EvalPanicError
@@ -635,6 +752,7 @@ func (s *c23sys) apply(opi int) (bool, error) {
 	}
 	if accepted {
 		effect(&s.ref)
+		s.accepted = append(s.accepted, opi)
 		if o.kind == c23kCreate {
 			s.app = basics.AppIndex(s.ev.TestingTxnCounter())
 			if s.x.onegroup {
@@ -907,7 +1025,7 @@ func TestVerif_C23(t *testing.T) {
 	var envs []*c23env
 	mkenv := func(name string, withApp bool, preBoxes bool) *c23env {
 		gb, addrs, _ := ledgertesting.NewTestGenesis(ledgertesting.TurnOffRewards)
-		l, err := c23openLedger(dir, name, cv, gb)
+		l, err := c23openLedger(dir, name, cv, gb, false)
 		if err != nil {
 			t.Fatalf("harness: open ledger: %v", err)
 		}
@@ -953,25 +1071,26 @@ func TestVerif_C23(t *testing.T) {
 		}
 	}()
 
-	boxOps, kvOps := c23boxAlphabet(), c23kvAlphabet()
+	boxOps, kvOps := c23boxAlphabet(), c23kvAlphabet(ve.Thorough())
 	type plan struct {
-		name     string
-		x        *c23explore
-		depth    int
+		name  string
+		x     *c23explore
+		depth int
 	}
 	plans := []plan{
-		{"box/app/groups", &c23explore{e: envApp, ops: boxOps}, ve.Pick(4, 6)},
-		{"box/flushed/groups", &c23explore{e: envFlushed, ops: boxOps}, ve.Pick(3, 5)},
-		{"box/app/onegroup", &c23explore{e: envApp, ops: boxOps, onegroup: true}, ve.Pick(4, 5)},
+		{"kv/app/groups", &c23explore{e: envApp, ops: kvOps}, ve.Pick(4, 5)},
+		{"box/app/groups", &c23explore{e: envApp, ops: boxOps}, ve.Pick(4, 5)},
 		{"kv/bare/groups", &c23explore{e: envBare, ops: kvOps}, ve.Pick(4, 5)},
+		{"box/flushed/groups", &c23explore{e: envFlushed, ops: boxOps}, ve.Pick(3, 4)},
+		{"box/app/onegroup", &c23explore{e: envApp, ops: boxOps, onegroup: true}, ve.Pick(4, 5)},
 		{"kv/bare/onegroup", &c23explore{e: envBare, ops: kvOps, onegroup: true}, ve.Pick(4, 5)},
-		{"kv/app/groups", &c23explore{e: envApp, ops: kvOps}, ve.Pick(3, 5)},
 	}
 	var cov ve.Coverage
 	cov.Exhaustive = true
 	var names []string
 	for _, p := range plans {
 		p := p
+		p.x.cuts = &c23cutCache{m: map[string]*c23cut{}, max: 384}
 		q := &ve.Seq[*c23sys]{
 			Name:     p.name,
 			NumOps:   len(p.x.ops),
@@ -984,7 +1103,10 @@ func TestVerif_C23(t *testing.T) {
 			Observe:  func(s *c23sys) string { return s.obs },
 			MaxDepth: p.depth,
 		}
+		t1dbg := time.Now()
 		res := q.Explore(r)
+		r.Note("%s: %d block-boundary ledgers built, %.1fs", p.name, p.x.cuts.made, time.Since(t1dbg).Seconds())
+		p.x.cuts.closeAll()
 		cov.AddSeq(res)
 		names = append(names, fmt.Sprintf("%s(depth %d)", p.name, p.depth))
 		if !res.Exhaustive {
